@@ -54,13 +54,20 @@ int main(int argc, char** argv) {
         enumerate_alphabet(e, v, kGated, v.ext_alpha, pl.ext_full, false, block);
         enumerate_alphabet(e, v, kGated, v.core_alpha, pl.core_pruned, true, block);
         enumerate_alphabet(e, v, kGated, v.ext_alpha, pl.ext_pruned, true, block);
+        // sizes at the corners of size_t / ssize_t on new and existing keys
+        unsigned big_alpha = v.is_map ? 5 : 4;
+        bool th = e.thorough();
+        enumerate_alphabet(e, v, kGated, big_alpha, th ? 4 : 3, false, block);
+        enumerate_alphabet(e, v, kGated, big_alpha, th ? 5 : 4, true, block);
         auto al = make_alphabets(kGated);
         const Alphabet& ca = al[v.core_alpha];
         const Alphabet& xa = al[v.ext_alpha];
         e.complete(cat("every history of length 1..", pl.core_full, " over the ", ca.shapes.size(), " operation shapes of alphabet '", ca.name, "' and 1..", pl.ext_full, " over the ",
             xa.shapes.size(), " shapes of '", xa.name, "'; every history of length 1..", pl.core_pruned, " ('", ca.name, "') and 1..", pl.ext_pruned, " ('", xa.name,
             "') except those with a throwing no-op (absent-key touch/change_size/lookup, evict on empty) before the last operation, which are state-equivalent to a shorter enumerated history "
-            "(3 keys, sizes {0,1,2}, a second instance reachable through swap)"));
+            "(3 keys, sizes {0,1,2}, a second instance reachable through swap); every history of length 1..", th ? 4 : 3, " (1..", th ? 5 : 4,
+            " without interior throwing no-ops) over the ", al[big_alpha].shapes.size(), " shapes of '", al[big_alpha].name,
+            "' (sizes 1, 2, 2^63, 2^63+1, SIZE_MAX, touch with SSIZE_MAX, on 3 keys)"));
       };
     }
     checks.push_back(sc);
